@@ -28,9 +28,27 @@ func main() {
 	replay := flag.String("replay", "", "report file: re-evaluate only the obligations it lists")
 	list := flag.Bool("list", false, "list every obligation")
 	noEvidence := flag.Bool("no-evidence", false, "do not write evidence/report files (used by the self-test)")
+	describe := flag.Bool("describe", false, "print the rule catalogue (markdown) and exit")
 	flag.Parse()
 	for _, f := range lateInits {
 		f()
+	}
+	if *describe {
+		var ids []string
+		for id := range properties {
+			ids = append(ids, id)
+		}
+		sort.Strings(ids)
+		for _, id := range ids {
+			p := properties[id]
+			fmt.Printf("### %s — %s\n\n", id, p.Title)
+			fmt.Printf("| rule | floor | decided clause |\n|------|-------|----------------|\n")
+			for _, r := range p.Rules {
+				fmt.Printf("| `%s` | %d | %s |\n", r.ID, r.Floor, strings.ReplaceAll(r.Clause, "|", "\\|"))
+			}
+			fmt.Printf("\nNot covered: %s\n\n", strings.Join(p.NotCovered, "; "))
+		}
+		return
 	}
 	if v := os.Getenv("VERIF_TIER"); v != "" && *tier == "quick" {
 		if v == "thorough" {
